@@ -265,6 +265,38 @@ def rare_signatures(ctx, rng):
                               {"dir": "A-rare", "alg": alg, "token": o.value})
 
 
+def unusual_rsa_keys(ctx, rng):
+    """RSA keys as other implementations make them (2047- and 2049-bit moduli, e = 3 / 17 / 2^32+1): both directions, RS* and PS*"""
+    from ..keystrata import UNUSUAL_RSA
+    j = J.load()
+    for kind in UNUSUAL_RSA:
+        key = gen.new_rsa_unusual(kind.split(":")[1])
+        rk, rpub = RefKey.from_jwk(key), RefKey.from_jwk(gen.public_jwk(key))
+        for a in ("RS256", "PS256", "RS512", "PS384"):
+            payload = b"unusual rsa " + kind.encode()
+            ctx.ev()
+            t = rjws.compact({"alg": a}, payload, rk)
+            o = call(j.jws.deserialize_compact, t, j.key(gen.public_jwk(key)), algorithms=[a])
+            ctx.count("b_checked")
+            ctx.count("unusual_rsa_tokens")
+            ctx.nontrivial(("unusual-rsa", kind, a))
+            ctx.cell("B-rare", a, kind)
+            if not o.ok or o.value.payload != payload:
+                ctx.violation(f"joserfc-rejects-foreign:unusual-rsa:{a}", f"{a} token by the reference under an RSA key {kind}: joserfc "
+                              f"{'rejects: ' + repr(o.exc) if not o.ok else 'returns another payload'}", {"dir": "B-rare", "alg": a, "token": t, "keys": [key]})
+            ctx.ev()
+            o = call(j.jws.serialize_compact, {"alg": a}, payload, j.key(key), algorithms=[a])
+            ctx.count("a_checked")
+            if not o.ok:
+                ctx.violation(f"sign-fails:unusual-rsa:{o.etype}", f"signing {a} with an RSA key {kind} failed: {o.exc!r}", {"dir": "A-rare", "alg": a, "kind": kind})
+            else:
+                exp = call(j.key(key).as_dict, private=False)
+                r = rjws.verify_compact(o.value, RefKey.from_jwk(exp.value) if exp.ok else rpub)
+                if r.verdict != "ACCEPT":
+                    ctx.violation(f"ref-rejects:{r.klass}:{a}:unusual-rsa", f"{a} token signed by joserfc under an RSA key {kind}: reference says {r.reason}",
+                                  {"dir": "A-rare", "alg": a, "token": o.value})
+
+
 def run_shard(ctx):
     sc = selfcheck.run()
     if sc["failed"]:
@@ -279,6 +311,8 @@ def run_shard(ctx):
         scale_and_buffers(ctx, rng)
     if ctx.shard == 6:
         rare_signatures(ctx, rng)
+    if ctx.shard == 7:
+        unusual_rsa_keys(ctx, rng)
     # B: forced grid alg x form x style (round-robin over shards), payload rotating
     forms = ["compact", "flat", "general2", "c7797", "j7797"]
     k = 0
